@@ -23,7 +23,14 @@ import (
 // for the plain rollout) annotates the object, so the write is answered Conflict.  The stored object —
 // now paused — still names the old active replica set after that reconcile and after the next one,
 // and the next one reports the paused state.
-func ZZ_C08_pauseRacingWithTheReconcile() {
+func ZZ_C08_pauseRacingWithTheReconcile() { zzPauseRace("C08.pause-race") }
+
+// ZZ_C05_pauseRacingWithTheReconcile: the same race seen from the promotion rule: "switches ... only if
+// ... the canary is neither paused nor failed" — the object that ends up stored is paused and must not
+// name the new replica set as active.
+func ZZ_C05_pauseRacingWithTheReconcile() { zzPauseRace("C05.pause-race") }
+
+func zzPauseRace(prop string) {
 	canary := &datadoghqv1alpha1.ExtendedDaemonSetSpecStrategyCanary{Duration: &metav1.Duration{Duration: 10 * time.Minute}}
 	ds := zzEDS("ns", "foo", "B", canary)
 	c := fakeapi.New()
@@ -57,13 +64,13 @@ func ZZ_C08_pauseRacingWithTheReconcile() {
 	_, err := zzReconcile(zzReconciler(c), "ns", "foo")
 	nondet.Observe("error", err != nil)
 	st := zzStoredEDS(c, "ns", "foo")
-	nondet.Assert("C08.pause-race.not-promoted-by-the-stale-decision", st.Status.ActiveReplicaSet == "foo-a")
-	nondet.Assert("C08.pause-race.annotation-kept", st.Annotations[datadoghqv1alpha1.ExtendedDaemonSetCanaryPausedAnnotationKey] == "true")
+	nondet.Assert(prop+".not-promoted-by-the-stale-decision", st.Status.ActiveReplicaSet == "foo-a")
+	nondet.Assert(prop+".annotation-kept", st.Annotations[datadoghqv1alpha1.ExtendedDaemonSetCanaryPausedAnnotationKey] == "true")
 	_, err = zzReconcile(zzReconciler(c), "ns", "foo")
 	st = zzStoredEDS(c, "ns", "foo")
-	nondet.Assert("C08.pause-race.next-noerror", err == nil)
-	nondet.Assert("C08.pause-race.next-not-promoted", st.Status.ActiveReplicaSet == "foo-a")
-	nondet.Assert("C08.pause-race.next-state", st.Status.State == datadoghqv1alpha1.ExtendedDaemonSetStatusStateCanaryPaused)
-	nondet.Assert("C08.pause-race.next-annotation-kept", st.Annotations[datadoghqv1alpha1.ExtendedDaemonSetCanaryPausedAnnotationKey] == "true")
-	nondet.Reach("C08.pause-race.raced", raced)
+	nondet.Assert(prop+".next-noerror", err == nil)
+	nondet.Assert(prop+".next-not-promoted", st.Status.ActiveReplicaSet == "foo-a")
+	nondet.Assert(prop+".next-state", st.Status.State == datadoghqv1alpha1.ExtendedDaemonSetStatusStateCanaryPaused)
+	nondet.Assert(prop+".next-annotation-kept", st.Annotations[datadoghqv1alpha1.ExtendedDaemonSetCanaryPausedAnnotationKey] == "true")
+	nondet.Reach(prop+".raced", raced)
 }
